@@ -1121,6 +1121,37 @@ func (m *Machine) stringsFn(name string, args []value, site ssa.Instruction) val
 		},
 		"ReplaceAll": func(v []value) value { return strings.ReplaceAll(v[0].(string), v[1].(string), v[2].(string)) },
 		"Repeat":     func(v []value) value { return strings.Repeat(v[0].(string), int(v[1].(int64))) },
+		"SplitN": func(v []value) value {
+			return strSliceV(strings.SplitN(v[0].(string), v[1].(string), int(v[2].(int64))))
+		},
+		"Fields":       func(v []value) value { return strSliceV(strings.Fields(v[0].(string))) },
+		"Count":        func(v []value) value { return int64(strings.Count(v[0].(string), v[1].(string))) },
+		"EqualFold":    func(v []value) value { return strings.EqualFold(v[0].(string), v[1].(string)) },
+		"TrimPrefix":   func(v []value) value { return strings.TrimPrefix(v[0].(string), v[1].(string)) },
+		"TrimSuffix":   func(v []value) value { return strings.TrimSuffix(v[0].(string), v[1].(string)) },
+		"Trim":         func(v []value) value { return strings.Trim(v[0].(string), v[1].(string)) },
+		"TrimLeft":     func(v []value) value { return strings.TrimLeft(v[0].(string), v[1].(string)) },
+		"TrimRight":    func(v []value) value { return strings.TrimRight(v[0].(string), v[1].(string)) },
+		"ContainsAny":  func(v []value) value { return strings.ContainsAny(v[0].(string), v[1].(string)) },
+		"ContainsRune": func(v []value) value { return strings.ContainsRune(v[0].(string), rune(v[1].(int64))) },
+		"IndexByte":    func(v []value) value { return int64(strings.IndexByte(v[0].(string), byte(v[1].(int64)))) },
+		"IndexRune":    func(v []value) value { return int64(strings.IndexRune(v[0].(string), rune(v[1].(int64)))) },
+		"Title":        func(v []value) value { return strings.Title(v[0].(string)) },
+		"Join": func(v []value) value {
+			sl, ok := v[0].(SliceV)
+			if !ok {
+				panic(unsupported("strings.Join on a symbolic slice"))
+			}
+			ps := make([]string, sl.len)
+			for i := 0; i < sl.len; i++ {
+				c, ok := sl.arr[sl.off+i].(string)
+				if !ok {
+					panic(unsupported("strings.Join with a symbolic element"))
+				}
+				ps[i] = c
+			}
+			return strings.Join(ps, v[1].(string))
+		},
 		"Split": func(v []value) value {
 			ps := strings.Split(v[0].(string), v[1].(string))
 			arr := make([]value, len(ps))
@@ -1158,4 +1189,12 @@ func (m *Machine) strconvFn(name string, args []value, site ssa.Instruction) val
 		return m.sprintf("%d", args)
 	}
 	panic(unsupported("strconv." + name))
+}
+
+func strSliceV(ps []string) SliceV {
+	arr := make([]value, len(ps))
+	for i, p := range ps {
+		arr[i] = p
+	}
+	return SliceV{arr: arr, len: len(arr), cap: len(arr)}
 }
